@@ -29,7 +29,9 @@ META = dict(
             '4 and 8, scalar and 2-D symbolic threshold; thorough: adds 3x4 '
             'and 4x4 (npixels symbolic inside _detect_sources), 3x3 with <=2 '
             'masked pixels; 5x5 images whose above-threshold set lies in one '
-            'of two 15/16-pixel templates (thorough)'),
+            'of two 15/16-pixel templates (thorough; quick: the L+path template '
+            'with 8 path pixels pinned above threshold, 8 free pixels, '
+            'npixels in [8,12))'),
     assumptions=['floats modelled as NaN-extended reals; +-inf modelled (sign flag, comparisons only) in the cases marked inf',
                  'threshold values are finite',
                  'scipy.ndimage.label/find_objects run natively on the '
@@ -334,6 +336,18 @@ def cases(tier, seed):
             nan=False)
         add((2, 3), conn, '2d', 'upto1', (1, 3), entry='finder')
         add((3, 3), conn, 'scalar', 'none', (1, 10), entry='core')
+    # 5x5 (quick): the 'L+path' template with 8 of the 11 path pixels pinned
+    # above the threshold; the L (bounding box 3x3) and 3 path pixels are
+    # free, npixels symbolic in [8, 12) -- reaches a pruned concave component
+    # whose bounding box holds a pixel of a qualifying unconnected component
+    pinned = {p: True for p in TEMPLATES['L+path'][8:]}
+    for conn in (4, 8):
+        cs.append(dict(kind='detect',
+                       name=f'detect-5x5-c{conn}-scalar-mask:none-npix8.12-'
+                            'entry:core-nan:False-template:L+path-pinned8',
+                       shape=(5, 5), conn=conn, thr='scalar', mask='none',
+                       npix=(8, 12), entry='core', nan=False,
+                       template='L+path', pin=pinned))
     # sensitivity twins (perturbed oracle must be refuted)
     add((2, 2), 8, 'scalar', 'none', (1, 2), twin='ge')
     add((2, 2), 4, 'scalar', 'none', (1, 2), twin='conn')
